@@ -40,6 +40,36 @@ pub fn outcomes(s: &str, ce: &ChemicalElements) -> Vec<Value> {
     out
 }
 
+/// A conservative bound on every per-key total a formula-like string can denote:
+/// (sum of all element counts, 1 for a missing one) x (product of all group counts). Strings whose bound does not
+/// fit in i32 are outside the properties' quantifier ("digit runs are bounded so that arithmetic overflow is out of
+/// scope") and are not generated.
+pub fn overflow_risk(s: &str) -> bool {
+    let cs: Vec<char> = s.chars().collect();
+    let mut sum: f64 = 0.0;
+    let mut prod: f64 = 1.0;
+    let mut i = 0;
+    let mut in_bracket = false;
+    let mut terms = 0.0;
+    while i < cs.len() {
+        let c = cs[i];
+        if c == '[' { in_bracket = true; i += 1; continue; }
+        if c == ']' { in_bracket = false; i += 1; continue; }
+        if c.is_numeric() && !in_bracket {
+            let mut j = i;
+            let mut v: f64 = 0.0;
+            while j < cs.len() && cs[j].is_numeric() { v = v * 10.0 + cs[j].to_digit(10).unwrap_or(9) as f64; j += 1; }
+            let after_group = i > 0 && cs[i - 1] == ')';
+            if after_group { prod *= v.max(1.0); } else { sum += v; }
+            i = j;
+            continue;
+        }
+        if c.is_ascii_uppercase() { terms += 1.0; }
+        i += 1;
+    }
+    (sum + terms + 1.0) * prod >= 2.0e9
+}
+
 fn emit(id: usize, s: &str, ce: &ChemicalElements, ast: Option<Value>) {
     let outs = outcomes(s, ce);
     let same = outs.iter().all(|o| *o == outs[0]);
@@ -168,6 +198,7 @@ pub fn run(args: &[String]) {
                     render(&items, &mut s);
                     if rng.chance(1, 3) { s } else { mutate(&mut rng, &s) }
                 };
+                let s = if overflow_risk(&s) { "H2O".to_string() } else { s };
                 emit(id, &s, &ce, None);
             }
         }
